@@ -128,6 +128,8 @@ class TagWorker(Worker):
             raise TypeError(f'preprocess of {self.tag} got a non-request object of type {type(x).__name__}')  # SITE-MARK-7f3a strict
         for a, arg in plan_for(x, self.tag):
             if a == 'reject':
+                if arg == 'const':
+                    raise ValueError('bad input')  # SITE-MARK-7f3a preprocess-const (the same class and message for every request)
                 raise Reject(self.tag, tid(x))  # SITE-MARK-7f3a preprocess
         return x
 
@@ -172,6 +174,8 @@ class TagWorker(Worker):
                     if a == 'sleep':
                         time.sleep(arg)
                     elif a == 'fail':
+                        if arg == 'const':
+                            raise ValueError('bad input')  # SITE-MARK-7f3a call-const (the same class and message for every request)
                         if isinstance(arg, int):
                             _deep_fail(arg, tag, tid(x))  # fails `arg` call levels below call()
                         if arg:
